@@ -354,6 +354,12 @@ impl<'a> Writer<'a> {
         }
     }
 
+    /// Verification hook: `(cursor, available, limit)`.
+    #[cfg(feature = "verif_hooks")]
+    pub fn verif_state(&self) -> (usize, usize, usize) {
+        (self.cursor, self.available, self.limit)
+    }
+
     /// Sets the size limit for the message as close to `new_limit` as
     /// possible. Note that this method silently clamps the value: the
     /// limit cannot be more than the underlying buffer's size and
